@@ -254,6 +254,9 @@ func Prove(goal Form, b Bounds, facts []Fact, depth int) bool {
 		for _, k := range ks {
 			g := goal.addScaled(ft.F, -k)
 			if len(g.T) > len(goal.T) {
+				if LowerBound(g, b) >= 0 {
+					return true
+				}
 				continue // do not grow the goal
 			}
 			if Prove(g, b, rest, depth-1) {
